@@ -95,7 +95,11 @@ Pick(q) ==
      IN /\ run' = [run EXCEPT ![q] = [task |-> merged, all |-> all, exec |-> (t.type = "HookRun" /\ ShouldRun(t))]]
         \* the merged followers leave the queue, the head stays (with the combined contexts) until the result is applied
         /\ queues' = [queues EXCEPT ![q] = <<merged>> \o SubSeq(queues[q], 2 + Len(fs), Len(queues[q]))]
-  /\ UNCHANGED <<backoff, nextId, unlocked, schedOn, nev, ntick, nfail, log, discarded>>
+        \* side effects of handlers that run no hook process happen while the task is handled (before the result
+        \* is applied to the queue): schedules are enabled, a Synchronization that must not run unlocks its monitors
+        /\ schedOn' = IF t.type = "EnableSched" THEN schedOn \cup {t.hook} ELSE schedOn
+        /\ unlocked' = IF t.type = "HookRun" /\ ~ShouldRun(t) THEN unlocked \cup t.mon ELSE unlocked
+  /\ UNCHANGED <<backoff, nextId, nev, ntick, nfail, log, discarded>>
 
 SyncTasks(h, id) ==
   [j \in 1..Len(h.kube) |->
@@ -113,13 +117,13 @@ Finish(q, ok) ==
             /\ nextId' = nextId + Len(h.kube)
             /\ UNCHANGED <<unlocked, schedOn, backoff, nfail, log, discarded>>
        [] t.type = "EnableSched" ->
-            /\ queues' = [queues EXCEPT ![q] = rest] /\ schedOn' = schedOn \cup {t.hook}
-            /\ UNCHANGED <<unlocked, nextId, backoff, nfail, log, discarded>>
+            /\ queues' = [queues EXCEPT ![q] = rest]
+            /\ UNCHANGED <<schedOn, unlocked, nextId, backoff, nfail, log, discarded>>
        [] OTHER ->
             IF ~ShouldRun(t)
               THEN \* Synchronization that must not run the hook: Success without execution, monitors unlocked
-                   /\ queues' = [queues EXCEPT ![q] = rest] /\ unlocked' = unlocked \cup t.mon
-                   /\ UNCHANGED <<schedOn, nextId, backoff, nfail, log, discarded>>
+                   /\ queues' = [queues EXCEPT ![q] = rest]
+                   /\ UNCHANGED <<unlocked, schedOn, nextId, backoff, nfail, log, discarded>>
               ELSE /\ (~ok => nfail < MaxFails) /\ nfail' = IF ok THEN nfail ELSE nfail + 1
                    /\ log' = Append(log, [q |-> q, hook |-> t.hook, ctxs |-> t.ctxs, ok |-> ok, id |-> t.id, kind |-> t.kind, kept |-> (~ok /\ ~t.af)])
                    /\ IF ok \/ t.af
